@@ -272,3 +272,49 @@ def run(res, tier):
                 kind_fn=lambda s, o: o.split()[-1] + (":forbidden" if forbidden_reason(s) else ":allowed"),
                 nontrivial_fn=lambda s, o: forbidden_reason(s) is not None)
     _state.clear()
+
+
+# ------------------------------------------------------------------ unit-level correspondence (Cache-Control reader)
+UNIT_NAMES = ["public", "private", "no-cache", "no-store", "no-transform", "must-revalidate", "proxy-revalidate", "max-age",
+              "s-maxage", "max-stale", "min-fresh", "only-if-cached", "stale-if-error", "immutable", "Other", "Other,", "foo",
+              "no-stor", "no-storee", "x-no-store", "privat", "", "max_age"]
+UNIT_ARGS = ["", "0", "5", "3600", "-1", "-0", "+7", " 9", "9 ", "12x", "x12", "abc", "2147483647", "2147483648", "-2147483648",
+             "-2147483649", "4294967396", "9223372036854775807", "9223372036854775808", "99999999999999999999999", "0x10",
+             "\"\"", "\"x\"", "\"a,b\"", "\"a, no-store\"", "\"a\\\"b\"", "\"a\\\\\"", "\"a\\", "\"unterminated", "\"x\"y", "x\"y\"",
+             "\" \"", "\"\t\"", "\"a\x01b\"", "\"a\x7fb\"", "\"\\", "\"", "=", "\"=\"", "1,5", "\"é\""]
+UNIT_SEPS = [",", ", ", " ,", " , ", ",,", ", ,", ",\t", "\t,", ";", " ", ",\x0b", ",\x0c,", "\r\n ,", ",\n"]
+
+
+def gen_unit_cases(rng, n):
+    out = []
+    for k in range(n):
+        r = rng.random()
+        if r < 0.70:
+            nv = rng.choice([1, 1, 1, 2, 3])
+            vals = []
+            for _ in range(nv):
+                v = ""
+                if rng.random() < 0.1: v += rng.choice(UNIT_SEPS)
+                for i in range(rng.randrange(0, 5)):
+                    d = randcase(rng, rng.choice(UNIT_NAMES))
+                    if rng.random() < 0.45:
+                        d += rng.choice(["=", "=", "=", " =", "= "]) + rng.choice(UNIT_ARGS)
+                    v += d + rng.choice(UNIT_SEPS)
+                if rng.random() < 0.5: v = v.rstrip(", \t")
+                if rng.random() < 0.03: v += "\x00no-store"
+                vals.append(v)
+            out.append("reuse.cc " + hexlist(vals))
+        elif r < 0.80:
+            out.append("reuse.int " + hexs(rng.choice(UNIT_ARGS) if rng.random() < 0.6 else
+                                          rng.choice(["", " ", "\t", "-", "+", "- 1", "+-1"]) + str(rng.randrange(0, 1 << rng.choice([4, 31, 32, 33, 63, 64, 70])))
+                                          + rng.choice(["", "", " ", "x", ","])))
+        elif r < 0.90:
+            v = ""
+            for i in range(rng.randrange(0, 5)):
+                v += rng.choice(["a", "b c", "\"q,r\"", "x=\"1,2\"", "", " ", "\"open", "no-cache"]) + rng.choice(UNIT_SEPS)
+            out.append("reuse.items " + hexs(v))
+        else:
+            vals = [rng.choice(["no-cache", "No-Cache", "no-cache , x", "x, no-cache", "no-cachex", "no-cache=1", "no-cache;q", "x,no-cache,y",
+                                "no-cach", "", "\"no-cache\"", "a\"b,no-cache\"", " no-cache"]) for _ in range(rng.choice([1, 1, 2]))]
+            out.append("reuse.member %s %s" % (hexlist(vals), hexs("no-cache")))
+    return out
